@@ -56,6 +56,18 @@ inductive Out where
   | error                        -- the implementation raises (frame too short to carry its header)
 deriving DecidableEq, Repr, Inhabited
 
+/-- the first frame stored in a record, if any -/
+def firstFrame (r : Rec) : Option Bytes := (r.frames.find? (fun p => p.1 == 0)).map (·.2)
+
+/-- does a frame with frame counter 0, sequence counter `seq` and the bytes `rest` (length byte, then data) start a NEW
+message on a stream whose record is `r`?  Yes unless it repeats the stored first frame exactly (same counter, same
+announced length, same data).  A frame too short to carry its length byte takes this branch too (and raises there). -/
+def startsNew (r : Option Rec) (seq : Nat) (rest : Bytes) : Bool :=
+  match r, rest with
+  | none, _ => true
+  | some _, [] => true
+  | some x, total :: payload => x.seq ≠ seq || firstFrame x ≠ some payload || x.len ≠ total
+
 /-- one step of `_decode_fast_message` on the record of the frame's stream.
 Returns the record as it is right after the step; on `complete` the *caller* removes it
 (the implementation deletes it only if the per-PGN decoder did not raise). An absent
@@ -69,7 +81,9 @@ def step (r : Option Rec) (f : Bytes) : Option Rec × Out :=
     let curLen := match r with | some x => x.len | none => 0
     let curSeq : Option Nat := match r with | some x => some x.seq | none => none
     if fc ≠ 0 ∧ curLen = 0 then (r, .ignored)
-    else if fc = 0 ∧ curSeq ≠ some seq then
+    else if fc = 0 ∧ startsNew r seq rest then
+      -- a first frame starts a new message: another counter than the one in progress, or not a mere repetition of the
+      -- first frame already stored (a reused counter; leftovers of an earlier message must not be mixed into this one)
       match rest with
       | [] => (r, .error)
       | total :: payload =>
